@@ -907,6 +907,7 @@ def r_expose(ctx, view, Q):
     ctx.cur = view
     mtypes = mut_prio_types(prog)
     got = set()
+    fobj = {}
     for f in prog.fns.values():
         if f.is_closure or not f.exported:
             continue
@@ -921,13 +922,27 @@ def r_expose(ctx, view, Q):
         if exposes_mut_priority(prog, f, mtypes):
             nm = f.name if not f.j.get("impl_trait") else "<%sas %s>::%s" % (ref, f.j["impl_trait"].split("::")[-1], f.name)
             got.add(nm)
+            fobj[nm] = f
     want = EXPOSE_FROZEN[Q]
     for nm in sorted(got | want):
         if nm in got and nm in want:
             ctx.ob("R-EXPOSE", "%s:%s" % (QNAME[Q], nm), True, "", "hands out &mut P; owns an R-RESTORE obligation")
         elif nm in got:
-            ctx.ob("R-EXPOSE", "%s:%s" % (QNAME[Q], nm), False, "",
-                   "new public API handing out `&mut P`: every such API must re-establish the heap order (no restoration rule instance exists for it)")
+            # a NEW such API is acceptable iff what it hands out is written through before it returns (a callback) and every one of
+            # those writes owns a satisfied R-RESTORE obligation; a reference that outlives the call can never be covered
+            from . import rules_order as _O
+            f = fobj[nm]
+            evs = []
+            for g in prog.family(f.key):
+                evs += _O.dirty_events(view, Q, g)
+            res = [_O.check_event(view, Q, d) for d in evs]
+            outj = f.j.get("output") or {}
+            returns_it = "mut P" in json.dumps(outj) or any(x.get("k") == "adt" and x.get("path") in mtypes for x in ty_walk(outj))
+            ok = bool(evs) and all(r[0] for r in res) and not returns_it
+            ctx.ob("R-EXPOSE", "%s:%s" % (QNAME[Q], nm), ok, f.loc(),
+                   "new public API handing `&mut P` to a callback; its %d dirty event(s) are all restored before it returns" % len(evs) if ok else
+                   "new public API handing out `&mut P`: every such API must re-establish the heap order (%s)" % (
+                       "the reference outlives the call" if returns_it and evs else "no restoration rule instance exists for it" if not evs else "a write through it is not restored"))
     ctx.floor("R-EXPOSE:" + QNAME[Q], len(got & want), len(want))
     # the read / mutable-key accessors keep returning &P
     for nm in (("get_mut", "peek_mut") if Q == PQ else ("get_mut", "peek_min_mut", "peek_max_mut")):
@@ -977,10 +992,19 @@ def r_writers(ctx, view):
     prog = view.prog
     ctx.cur = view
     got = {}
+    spliced = {}
     for f in prog.fns.values():
         for ev in view.fx.events(f):
             if ev["kind"] == "tw":
+                origin = f.blocks[ev["bb"]].get("from_fn", "") if isinstance(ev.get("bb"), int) and ev["bb"] < len(f.blocks) else ""
+                if origin.startswith(("store::Store::", "<store::Store as")):
+                    # the write sits in the spliced body of a NEW function of the Store (inlined into its callers so that every
+                    # rule judges it in context): it is the Store's write, not the caller's
+                    spliced.setdefault(origin, []).append(ev)
+                    continue
                 got.setdefault(root_fn(prog, f).key, []).append(ev)
+    for k in sorted(spliced):
+        ctx.ob("R-WRITERS", k + ":spliced", True, "", "a new function of the Store, which owns the tables (%d raw writes, analysed inside its callers)" % len(spliced[k]))
     n = 0
     for k in sorted(got):
         f = prog.fn(k)
